@@ -10,6 +10,7 @@ import time
 from concurrent.futures import ThreadPoolExecutor
 
 SOLVERS = [
+    ("z3-5.1-ematch", ["z3-new", "-in", "smt.mbqi=false"]),
     ("z3-5.1", ["z3-new", "-in"]),
     ("z3-4.8", ["/usr/bin/z3", "-in"]),
     ("cvc5", ["/usr/bin/cvc5", "--lang=smt2", "--strings-exp", "--incremental"]),
